@@ -5,6 +5,7 @@ use proc_macro2::{Literal, Span, TokenStream};
 use quote::quote;
 use syn::Ident;
 
+use crate::name_to_ident;
 use crate::wgsl::vertex_entry_structs;
 
 pub fn fragment_target_count(module: &Module, f: &Function) -> usize {
@@ -79,8 +80,8 @@ pub fn vertex_states(module: &naga::Module) -> TokenStream {
                 let layout_expressions: Vec<TokenStream> = vertex_inputs
                     .iter()
                     .map(|input| {
-                        let name = Ident::new(&input.name, Span::call_site());
-                        let step_mode = Ident::new(&input.name.to_snake(), Span::call_site());
+                        let name = name_to_ident(&input.name);
+                        let step_mode = name_to_ident(&input.name.to_snake());
                         step_mode_params.push(quote!(#step_mode: wgpu::VertexStepMode));
                         quote!(#name::vertex_buffer_layout(#step_mode))
                     })
@@ -162,14 +163,14 @@ pub fn vertex_struct_methods(module: &naga::Module) -> TokenStream {
 fn vertex_input_structs(module: &naga::Module) -> Vec<TokenStream> {
     let vertex_inputs = crate::wgsl::get_vertex_input_structs(module);
     vertex_inputs.iter().map(|input|  {
-        let name = Ident::new(&input.name, Span::call_site());
+        let name = name_to_ident(&input.name);
 
         let count = Literal::usize_unsuffixed(input.fields.len());
         let attributes: Vec<_> = input
             .fields
             .iter()
             .map(|(location, m)| {
-                let field_name: TokenStream = m.name.as_ref().unwrap().parse().unwrap();
+                let field_name = name_to_ident(m.name.as_ref().unwrap());
                 let location = Literal::usize_unsuffixed(*location as usize);
                 let format = crate::wgsl::vertex_format(&module.types[m.ty]);
                 // TODO: Will the debug implementation always work with the macro?
